@@ -1,5 +1,6 @@
 """Hypothesis plumbing: imperative draw adapter, seeded drivers with bounded shrinking."""
 import os
+import time
 import hypothesis
 from hypothesis import given, settings, strategies as st, HealthCheck, Phase
 from hypothesis.errors import Flaky
@@ -9,7 +10,7 @@ except Exception:  # pragma: no cover
     FlakyFailure = Flaky
 
 from . import findings
-from .util import run_shallow, Inconclusive, reset_library, safe_gc
+from .util import run_shallow, Inconclusive, reset_library, safe_gc, cjson
 
 
 class D:
@@ -64,6 +65,78 @@ class Found(Exception):
     pass
 
 
+def _list_paths(x, path=()):
+    """paths of all list elements in a JSON-like value, deepest containers last"""
+    out = []
+    if isinstance(x, dict):
+        for k in sorted(x):
+            out.extend(_list_paths(x[k], path + (k,)))
+    elif isinstance(x, list):
+        for i in range(len(x) - 1, -1, -1):
+            out.append(path + (i,))
+        for i, v in enumerate(x):
+            out.extend(_list_paths(v, path + (i,)))
+    return out
+
+
+def _without(x, path):
+    import copy
+    y = copy.deepcopy(x)
+    cur = y
+    for k in path[:-1]:
+        cur = cur[k]
+    del cur[path[-1]]
+    return y
+
+
+def _hoist(x, path):
+    """replace the container of path by the element at path (e.g. an if-statement by one of its body statements)"""
+    import copy
+    if len(path) < 2:
+        return None
+    y = copy.deepcopy(x)
+    cur = y
+    for k in path[:-2]:
+        cur = cur[k]
+    elem = cur[path[-2]][path[-1]]
+    if not isinstance(elem, list):
+        return None
+    cur[path[-2]] = elem
+    return y
+
+
+def reduce_case(case, signature_of, budget_s=15.0):
+    """Greedy structural reduction: delete list elements (statements, fields, calls, ops, samples, items) or hoist a
+    nested element over its parent while signature_of(candidate) stays the same.  signature_of returns None when
+    the candidate does not fail (or is not a valid case: harness exceptions count as 'does not reproduce')."""
+    t0 = time.time()
+    sig = signature_of(case)
+    if sig is None:
+        return case
+    progress = True
+    while progress and time.time() - t0 < budget_s:
+        progress = False
+        for path in _list_paths(case):
+            if time.time() - t0 > budget_s:
+                break
+            for cand in (_without(case, path), _hoist(case, path)):
+                if cand is None:
+                    continue
+                try:
+                    ok = signature_of(cand) == sig
+                except Exception:
+                    ok = False
+                finally:
+                    reset_library()
+                if ok:
+                    case = cand
+                    progress = True
+                    break
+            if progress:
+                break
+    return case
+
+
 COLLECT = os.environ.get("PVS_COLLECT") == "1"
 PROVISIONAL = None   # set by the worker: callable(v) streaming the first discovery of a violation
 _GC_EVERY = 25
@@ -78,8 +151,11 @@ def drive(strategy, body, seed, max_examples, acc, shrink=True, shallow=(os.envi
     * PVS_COLLECT=1: violations are bucketed by signature in acc.buckets and the search continues.
     """
     last = {}
+    if os.environ.get("PVS_HYP_SHRINK", "1") == "0":
+        shrink = False      # quick tier: structural reduction only (reduce_case), Hypothesis's shrinker is too slow
     phases = [Phase.generate] + ([Phase.shrink] if shrink else [])
     counter = [0]
+    budget = float(os.environ.get("PVS_SHRINK_S", "25"))
 
     def judged(case):
         counter[0] += 1
@@ -101,6 +177,8 @@ def drive(strategy, body, seed, max_examples, acc, shrink=True, shallow=(os.envi
               suppress_health_check=list(HealthCheck))
     @given(strategy)
     def test(case):
+        if "t0" in last and time.time() - last["t0"] > budget and cjson(case) != last.get("best"):
+            return          # shrink budget used up: only the best known failing case is still executed
         try:
             if shallow:
                 vios = run_shallow(judged, case)
@@ -123,18 +201,44 @@ def drive(strategy, body, seed, max_examples, acc, shrink=True, shallow=(os.envi
                     PROVISIONAL(vios[0])
                 except Exception:
                     pass
+            last.setdefault("t0", time.time())
+            last["best"] = cjson(case)      # the latest failing example is the shrinker's current best
             last["vios"] = vios
             raise Found(vios[0]["kind"])
+
+    def _sig_of(c):
+        vs = judged_quiet(c)
+        return (vs[0]["property"], vs[0]["kind"], vs[0]["detail"]) if vs else None
+
+    def judged_quiet(c):
+        import copy
+        scratch = type(acc)()
+        vs = body(copy.deepcopy(c), scratch)
+        return [v for v in vs if findings.tolerated(v["property"], v["kind"], v["detail"], v["case"]) is None]
+
+    def _finish():
+        vios = last["vios"]
+        try:
+            small = reduce_case(vios[0]["case"], _sig_of, float(os.environ.get("PVS_REDUCE_S", "15")))
+            vs = judged_quiet(small)
+            if vs:
+                vios = vs
+        except Exception:
+            pass
+        acc.violations.extend(vios)
 
     try:
         test()
     except Found:
-        acc.violations.extend(last["vios"])
+        _finish()
     except (Flaky, FlakyFailure):
         if "vios" in last:
-            for v in last["vios"]:
-                v["detail"] = v["detail"] + " [flaky under replay]"
-            acc.violations.extend(last["vios"])
+            if not ("t0" in last and time.time() - last["t0"] > budget):
+                for v in last["vios"]:
+                    v["detail"] = v["detail"] + " [flaky under replay]"
+                acc.violations.extend(last["vios"])
+            else:
+                _finish()
         else:
             raise
     finally:
